@@ -9,9 +9,9 @@ import CaddyModel.C09.FuelLemmas
 namespace CaddyModel.C09
 
 def IterInv (s : State) : Prop :=
-  ∀ (r : Nat) (q : Req) (o : HostId), s.reqs[r]? = some q → q.par.dynamic = true → q.pc.hostOf = some o →
-    ∃ (c : CfgId) (cs : CfgSt), q.holder = some c ∧ s.cfgs[c]? = some cs ∧ cs.canceled = false ∧ cs.owner = some r ∧
-      ∃ k, (k, o) ∈ cs.ups
+  ∀ (r : Nat) (q : Req) (o : HostId) (c : CfgId), s.reqs[r]? = some q → q.par.dynamic = true →
+    q.pc.hostOf = some o → q.holder = some c →
+    ∃ cs : CfgSt, s.cfgs[c]? = some cs ∧ cs.canceled = false ∧ cs.owner = some r ∧ ∃ k, (k, o) ∈ cs.ups
 
 theorem lt_of_get {α : Type} {l : List α} {i : Nat} {x : α} (h : l[i]? = some x) : i < l.length := by
   rcases Nat.lt_or_ge i l.length with h' | h'
@@ -21,27 +21,27 @@ theorem lt_of_get {α : Type} {l : List α} {i : Nat} {x : α} (h : l[i]? = some
 /-- one request is rewritten, configurations untouched -/
 theorem iter_set {s s' : State} {r0 : Nat} {q0 q0' : Req} (hi : IterInv s) (hq0 : s.reqs[r0]? = some q0)
     (hr : s'.reqs = s.reqs.set r0 q0') (hc : s'.cfgs = s.cfgs)
-    (hown : ∀ o, q0'.par.dynamic = true → q0'.pc.hostOf = some o →
-      ∃ (c : CfgId) (cs : CfgSt), q0'.holder = some c ∧ s.cfgs[c]? = some cs ∧ cs.canceled = false ∧ cs.owner = some r0 ∧
+    (hown : ∀ o c, q0'.par.dynamic = true → q0'.pc.hostOf = some o → q0'.holder = some c →
+      ∃ cs : CfgSt, s.cfgs[c]? = some cs ∧ cs.canceled = false ∧ cs.owner = some r0 ∧
         ∃ k, (k, o) ∈ cs.ups) : IterInv s' := by
-  intro r q o hq hd ho
+  intro r q o c hq hd ho hh
   rw [hr] at hq
   rw [hc]
   by_cases h : r0 = r
   · subst h
     rw [get_set_self hq0] at hq; simp at hq; subst hq
-    exact hown o hd ho
+    exact hown o c hd ho hh
   · rw [List.getElem?_set_ne h] at hq
-    exact hi r q o hq hd ho
+    exact hi r q o c hq hd ho hh
 
 /-- the rewritten request keeps handler parameters, holder and the Host it is dealing with -/
 theorem iter_set_same {s s' : State} {r0 : Nat} {q0 q0' : Req} (hi : IterInv s) (hq0 : s.reqs[r0]? = some q0)
     (hr : s'.reqs = s.reqs.set r0 q0') (hc : s'.cfgs = s.cfgs) (e1 : q0'.par = q0.par) (e2 : q0'.holder = q0.holder)
     (e3 : ∀ o, q0'.pc.hostOf = some o → q0.pc.hostOf = some o) : IterInv s' := by
   refine iter_set hi hq0 hr hc ?_
-  intro o hd ho
-  rw [e1] at hd; rw [e2]
-  exact hi r0 q0 o hq0 hd (e3 o ho)
+  intro o c hd ho hh
+  rw [e1] at hd; rw [e2] at hh
+  exact hi r0 q0 o c hq0 hd (e3 o ho) hh
 
 /-- requests untouched; every live owned holder a request relies on stays alive, owned, and keeps
     its upstreams -/
@@ -50,14 +50,14 @@ theorem iter_cfgs {s s' : State} (hi : IterInv s) (hr : s'.reqs = s.reqs)
       cs.owner = some r → s.reqs[r]? = some q → q.pc.hostOf = some o →
       ∃ cs' : CfgSt, s'.cfgs[c]? = some cs' ∧ cs'.canceled = false ∧ cs'.owner = some r ∧ ∀ x ∈ cs.ups, x ∈ cs'.ups) :
     IterInv s' := by
-  intro r q o hq hd ho
+  intro r q o c hq hd ho hh
   rw [hr] at hq
-  obtain ⟨c, cs, h1, h2, h3, h4, k, h5⟩ := hi r q o hq hd ho
+  obtain ⟨cs, h2, h3, h4, k, h5⟩ := hi r q o c hq hd ho hh
   obtain ⟨cs', g1, g2, g3, g4⟩ := hk c cs r q o h2 h3 h4 hq ho
-  exact ⟨c, cs', h1, g1, g2, g3, k, g4 _ h5⟩
+  exact ⟨cs', g1, g2, g3, k, g4 _ h5⟩
 
 theorem iterInv_init : IterInv init := by
-  intro r q o hq; simp [init] at hq
+  intro r q o c hq; simp [init] at hq
 
 theorem iterInv_step {s s' : State} (a : Action) (hi : IterInv s) (hs : step s a = some s') : IterInv s' := by
   cases a with
@@ -121,10 +121,10 @@ theorem iterInv_step {s s' : State} (a : Action) (hi : IterInv s) (hs : step s a
     simp only [step, stepNewReq] at hs
     split at hs <;> simp at hs
     subst hs
-    intro r q o hq hd ho
+    intro r q o c hq hd ho hh
     by_cases hlt : r < s.reqs.length
     · simp only [List.getElem?_append_left hlt] at hq
-      exact hi r q o hq hd ho
+      exact hi r q o c hq hd ho hh
     · have : r = s.reqs.length ∨ s.reqs.length < r := by omega
       rcases this with h | h
       · subst h; simp at hq; subst hq; simp [Pc.hostOf] at ho
@@ -139,18 +139,16 @@ theorem iterInv_step {s s' : State} (a : Action) (hi : IterInv s) (hs : step s a
         next hok =>
           simp at hs; subst hs
           refine iter_set hi hq0 rfl rfl ?_
-          intro o hd ho
+          intro o c hd ho hh
           simp [Pc.hostOf] at ho; subst ho
           have hd' : q0.par.dynamic = true := hd
-          simp only [dynOk, hd', if_true] at hok
+          have hh' : q0.holder = some c := hh
+          simp only [dynOk, hd', if_true, hh'] at hok
           split at hok
-          next c hh =>
-            split at hok
-            next cs hcs =>
-              simp only [Bool.and_eq_true, Bool.not_eq_true', beq_iff_eq, List.any_eq_true] at hok
-              obtain ⟨⟨h1, h2⟩, x, hx, hxo⟩ := hok
-              exact ⟨c, cs, hh, hcs, h1, h2, x.1, by rw [← hxo]; exact hx⟩
-            · simp at hok
+          next cs hcs =>
+            simp only [Bool.and_eq_true, Bool.not_eq_true', beq_iff_eq, List.any_eq_true] at hok
+            obtain ⟨⟨h1, h2⟩, x, hx, hxo⟩ := hok
+            exact ⟨cs, hcs, h1, h2, x.1, by rw [← hxo]; exact hx⟩
           · simp at hok
         · simp at hs
       all_goals simp at hs
@@ -163,7 +161,7 @@ theorem iterInv_step {s s' : State} (a : Action) (hi : IterInv s) (hs : step s a
       next hpc =>
         simp at hs; subst hs
         refine iter_set hi hq0 rfl rfl ?_
-        intro o _ ho; simp at ho
+        intro o c _ ho _; simp at ho
       all_goals simp at hs
     next => simp at hs
   | strike r0 =>
@@ -192,7 +190,7 @@ theorem iterInv_step {s s' : State} (a : Action) (hi : IterInv s) (hs : step s a
         split at hs
         · simp at hs; subst hs
           refine iter_set hi hq0 rfl rfl ?_
-          intro o _ ho; simp at ho
+          intro o c _ ho _; simp at ho
         · simp at hs
       all_goals simp at hs
     next => simp at hs
@@ -218,10 +216,10 @@ theorem iterInv_step {s s' : State} (a : Action) (hi : IterInv s) (hs : step s a
             exact iter_set_same hi hq0 rfl rfl rfl rfl (by intro o ho; simpa [hpc, Pc.hostOf] using ho)
           · simp at hs; subst hs
             refine iter_set hi hq0 rfl rfl ?_
-            intro o _ ho; simp at ho
+            intro o c _ ho _; simp at ho
         · simp at hs; subst hs
           refine iter_set hi hq0 rfl rfl ?_
-          intro o _ ho; simp [Pc.hostOf] at ho
+          intro o c _ ho _; simp [Pc.hostOf] at ho
       all_goals simp at hs
     next => simp at hs
   | forget i =>
@@ -240,14 +238,27 @@ theorem iterInv_step {s s' : State} (a : Action) (hi : IterInv s) (hs : step s a
       next hpc =>
         split at hs
         · simp at hs; subst hs
-          intro r q o hq hd ho
+          intro r q o c hq hd ho hh
           by_cases h : r0 = r
           · subst h
             rw [get_set_self hq0] at hq; simp at hq; subst hq
             simp [hpc, Pc.hostOf] at ho
           · simp only [List.getElem?_set_ne h] at hq
-            obtain ⟨c, cs, h1, h2, h3, h4, h5⟩ := hi r q o hq hd ho
-            exact ⟨c, cs, h1, by simp [List.getElem?_append_left (lt_of_get h2), h2], h3, h4, h5⟩
+            obtain ⟨cs, h2, h3, h4, h5⟩ := hi r q o c hq hd ho hh
+            exact ⟨cs, by simp [List.getElem?_append_left (lt_of_get h2), h2], h3, h4, h5⟩
+        · simp at hs
+      all_goals simp at hs
+    next => simp at hs
+  | fallback r0 =>
+    simp only [step, stepFallback] at hs
+    split at hs
+    next q0 hq0 =>
+      split at hs
+      next hpc =>
+        split at hs
+        · simp at hs; subst hs
+          refine iter_set hi hq0 rfl rfl ?_
+          intro o c _ ho _; simp [hpc, Pc.hostOf] at ho
         · simp at hs
       all_goals simp at hs
     next => simp at hs
